@@ -11,3 +11,7 @@ open LhasaV.Props.C10
 #print axioms safe_links_resolve_inside
 #print axioms run_contained
 #print axioms LhasaV.Props.C10.run_contained_messages
+#print axioms LhasaV.Props.C10.run_contained_w
+#print axioms LhasaV.Props.C10.run_contained_w_cwd
+#print axioms LhasaV.Props.C10.test_touches_nothing
+#print axioms LhasaV.Props.C10.dry_run_touches_nothing
